@@ -431,6 +431,30 @@ def run(ctx, rep):
                         + ("are merged but lie in different periods)" if detail['kind'] == 'too coarse' else "lie in the same period but are separated)")),
                   detail=detail)
     rep.floor("C09.a", "period predicates evaluated", len(preds), 9)
+    # ---- C09.d: the counter rule and the within rule of a row are independent (the result is their union) ------------
+    from rules.C18 import cd_conditions, expr_names
+    dec = []   # blocks that update a counter: `*counter = *counter - 1`
+    push2 = []
+    for bi, blk in enumerate(M.blocks):
+        for s_ in blk["s"]:
+            if s_[0] == "=" and s_[2][0] == "bin" and s_[2][1] in ("SubWithOverflow", "Sub") and "i32" in s_[2][4]:
+                dec.append(bi)
+    rep.require("C09.d", "counter-decrement", len(dec) >= 1, where=M.loc(), what=f"KeepOptions::matches decrements a keep counter ({len(dec)} site(s))")
+    def mentions_within(conds):
+        for (e, v, sw) in conds:
+            nm = expr_names(M, e)
+            if {"within", "latest_time"} & nm:
+                return True
+            txt = repr(e)
+            if "saturating_add" in txt or "jiff::Zoned as std::cmp::PartialOrd" in txt:
+                return True
+        return False
+    for i, bi in enumerate(dec, 1):
+        conds = cd_conditions(M, bi)
+        bad = mentions_within(conds)
+        rep.check("C09.d", f"counter-independent-of-within/{i}", not bad, where=span_str(M.blocks[bi]["s"][0][3]) if M.blocks[bi]["s"] else M.loc(),
+                  what="the keep counter is decremented whenever a period's newest snapshot is counted, independently of the keep-within test" if not bad else
+                       "the keep counter is only decremented depending on the keep-within test: 'last N / newest N periods' would no longer be counted from the newest snapshot")
     rep.count("C09.a: days enumerated", len(days()))
 
     # ---- C09.c -------------------------------------------------------------------------------------
@@ -459,6 +483,13 @@ def run(ctx, rep):
         rep.check("C09.c", "keep-before-delete", false_edge_only(mk[0], md[0]), where=where(A, mk[0]), what="must_delete is consulted only if must_keep is false (a protected snapshot is never deleted)")
         rep.check("C09.c", "delete-before-matches", false_edge_only(md[0], mt[0]), where=where(A, md[0]), what="keep rules are consulted only if must_delete is false (an expired snapshot is not kept by a keep rule)")
         rep.check("C09.c", "keep-before-matches", false_edge_only(mk[0], mt[0]), where=where(A, mk[0]), what="keep rules are consulted only if must_keep is false")
+        # delete_unchanged is consulted only for snapshots that are neither protected nor expired
+        du = [bi for bi in range(len(A.blocks)) if field_bool_test(A, bi, "delete_unchanged")]
+        rep.require("C09.c", "delete-unchanged-site", len(du) == 1, where=A.loc(), what="KeepOptions::apply tests delete_unchanged once")
+        if len(du) == 1:
+            rep.check("C09.c", "keep-before-unchanged", false_edge_only(mk[0], du[0]), where=where(A, mk[0]), what="delete_unchanged is consulted only if must_keep is false (a protected snapshot is not removed as 'unchanged')")
+            rep.check("C09.c", "delete-before-unchanged", false_edge_only(md[0], du[0]), where=where(A, md[0]), what="delete_unchanged is consulted only if must_delete is false")
+            rep.check("C09.c", "unchanged-before-matches", mt[0] not in A.reachable_from(0, cut_edges=[(du[0], x) for x in A.succ(du[0])]) , where=where(A, du[0]), what="keep rules are consulted only after the delete_unchanged test")
     # sort: newest first = cmp(..).reverse()
     cl = [c for c in prog.closures_of(A) if any(re.search(r"Ordering::reverse$", callee(t)) for _, t in c.calls())]
     has_cmp = any(any(re.search(r"SnapshotFile as std::cmp::Ord>::cmp$", callee(t)) for _, t in c.calls()) for c in cl)
